@@ -76,6 +76,13 @@ fn completions(r: u64, mut f: impl FnMut(u64, u64, u64, u64) -> bool) -> bool {
 /// Before expiry: does EVERY completion of the outstanding votes pass? (brute force; small totals only)
 pub fn must_pass(th: &Th, total: u64, t: &Tally, slack: u128) -> bool {
     let r = (total as u128).saturating_sub(t.sum()) as u64;
+    if r > 48 {
+        // too many completions to enumerate: the two extreme completions decide (the rule is monotone:
+        // more Yes never hurts, more No/Veto or fewer votes never help) — nobody else votes, or all
+        // the outstanding weight votes No
+        let all_no = Tally { n: t.n.saturating_add(r), ..*t };
+        return passes_at_expiry(th, total, t, slack) && passes_at_expiry(th, total, &all_no, slack);
+    }
     !completions(r, |dy, dn, da, dv| {
         let c = Tally { y: t.y + dy, n: t.n + dn, a: t.a + da, v: t.v + dv };
         !passes_at_expiry(th, total, &c, slack)
@@ -85,6 +92,11 @@ pub fn must_pass(th: &Th, total: u64, t: &Tally, slack: u128) -> bool {
 /// Before expiry: does SOME completion of the outstanding votes pass?
 pub fn can_pass(th: &Th, total: u64, t: &Tally) -> bool {
     let r = (total as u128).saturating_sub(t.sum()) as u64;
+    if r > 48 {
+        // best completion: all the outstanding weight votes Yes
+        let all_yes = Tally { y: t.y.saturating_add(r), ..*t };
+        return passes_at_expiry(th, total, &all_yes, 0) || passes_at_expiry(th, total, t, 0);
+    }
     completions(r, |dy, dn, da, dv| {
         let c = Tally { y: t.y + dy, n: t.n + dn, a: t.a + da, v: t.v + dv };
         passes_at_expiry(th, total, &c, 0)
